@@ -110,6 +110,10 @@ type Op struct {
 	M       *MsgOp  `json:"m,omitempty"`
 	H       int     `json:"h,omitempty"`
 	Present bool    `json:"present,omitempty"`
+	// During (msg ops only): a context change or another vote delivery requested on a second
+	// goroutine while the authentication callbacks of this message run.  Voter.lock
+	// serialises the two: the expected behaviour is "this message, then During".
+	During *Op `json:"during,omitempty"`
 }
 type History struct {
 	Env        Env    `json:"env"`
@@ -424,6 +428,10 @@ type impl struct {
 	v      *ucon.Voter
 	cache  map[int]bool
 	cur    cur
+	// re-entrant schedule: the event to start from inside the credential callback
+	during     *Op
+	duringDone chan int
+	duringRan  bool
 	pm     *fakeParams
 	srv    *ucon.Server
 	seed   common.Hash
@@ -493,6 +501,13 @@ func newImpl(h *History) *impl {
 		im.setupReal()
 		verifySort = ucon.VerifC03VerifySortition(im.srv)
 		getStake = ucon.VerifC03GetStake(im.srv)
+	}
+	// the credential check is where a vote spends its time: this is where the
+	// schedule may start a second event on another goroutine
+	plainVerify := verifySort
+	verifySort = func(pub *ecdsa.PublicKey, data *ucon.SortitionData, lb params.LookBackType) error {
+		im.startDuring()
+		return plainVerify(pub, data, lb)
 	}
 	isValidator := func(round *big.Int, idx uint32, step uint32, lb params.LookBackType) (bool, *ucon.StepView) {
 		t := vtIndex(ucon.VoteType(step))
@@ -613,6 +628,7 @@ type Obs struct {
 	Count  uint32  `json:"count"`
 
 	recorded bool // the message's sender has a vote recorded in the message's tally (oracle only)
+	second   *Obs // During pairs: return code and count of the second event
 }
 
 func optHash(h *common.Hash) int {
@@ -668,8 +684,29 @@ func (im *impl) buildMsg(m *MsgOp) (*ucon.BlockHashWithVotes, common.Address) {
 	return msg, claimed
 }
 
-func (im *impl) apply(o *Op) Obs {
-	var ob Obs
+// startDuring: called from inside the voter's credential callback.  Starts the pending
+// second event on its own goroutine and waits a bounded time for it.  With the voter
+// lock held around the whole of processVoteMsg the second event blocks on the lock and
+// the wait times out; it then completes right after the message returns.
+const duringWait = 25 * time.Millisecond
+
+func (im *impl) startDuring() {
+	d := im.during
+	if d == nil || im.duringDone != nil {
+		return
+	}
+	im.duringDone = make(chan int, 1)
+	go func() { im.duringDone <- im.applyInner(d) }()
+	select {
+	case r := <-im.duringDone:
+		im.duringDone <- r // got through while the message was still being authenticated
+		im.duringRan = true
+	case <-time.After(duringWait):
+	}
+}
+
+// applyInner runs one op on the implementation and returns processVoteMsg's return class.
+func (im *impl) applyInner(o *Op) int {
 	switch o.K {
 	case "ctx":
 		im.cur.maxp = o.MaxP
@@ -681,13 +718,13 @@ func (im *impl) apply(o *Op) Obs {
 		err, invalid := ucon.VerifC03ProcessVoteMsg(im.v, vtypes[m.T], msg, claimed, statusVals[m.Status])
 		switch {
 		case err == nil && !invalid:
-			ob.Ret = 0
+			return 0
 		case err != nil && invalid:
-			ob.Ret = 1
+			return 1
 		case err == nil && invalid:
-			ob.Ret = 2
+			return 2
 		default:
-			ob.Ret = 3
+			return 3
 		}
 	case "cache":
 		im.cache[o.H] = o.Present
@@ -702,16 +739,48 @@ func (im *impl) apply(o *Op) Obs {
 		// the process restarts: a new Voter (NewVoter -> NewVoteDB) over the same database
 		im.v = im.mk()
 	}
+	return 0
+}
+
+func (im *impl) counts(o *Op, ob *Obs) {
+	if o.K == "msg" && o.M.StakeOk {
+		c, _ := ucon.VerifC03Count(im.v, new(big.Int).SetUint64(o.M.R), o.M.I, vtypes[o.M.T], kinds[o.M.Kind], hashes[o.M.H])
+		ob.Count = c
+		ob.recorded = ucon.VerifC03Recorded(im.v, new(big.Int).SetUint64(o.M.R), o.M.I, vtypes[o.M.T], kinds[o.M.Kind], addrs[o.M.Sender])
+	}
+}
+
+func (im *impl) apply(o *Op) Obs {
+	var ob Obs
+	if o.K == "msg" && o.During != nil {
+		im.during, im.duringDone, im.duringRan = o.During, nil, false
+		ob.Ret = im.applyInner(&Op{K: "msg", M: o.M})
+		second := &Obs{}
+		if im.duringDone != nil {
+			select {
+			case second.Ret = <-im.duringDone:
+			case <-time.After(10 * time.Second):
+				panic("the event started during a message's authentication never completed")
+			}
+		} else {
+			// the credential callback was not reached (the message was rejected earlier)
+			second.Ret = im.applyInner(o.During)
+		}
+		im.during = nil
+		ob.second = second
+	} else {
+		ob.Ret = im.applyInner(o)
+	}
 	for _, x := range drain() {
 		ob.Events = append(ob.Events, decodeEvent(x))
 	}
 	sort.SliceStable(ob.Events, func(i, j int) bool { return ob.Events[i].key() < ob.Events[j].key() })
 	l := ucon.VerifC03Latches(im.v)
 	ob.Latch = [7]int{b2i(l.Precommitted), b2i(l.Committed), b2i(l.SentChange), b2i(l.Certificated), optHash(l.NextMarked), optHash(l.CurMarked), optHash(l.NextVoted)}
-	if o.K == "msg" && o.M.StakeOk {
-		c, _ := ucon.VerifC03Count(im.v, new(big.Int).SetUint64(o.M.R), o.M.I, vtypes[o.M.T], kinds[o.M.Kind], hashes[o.M.H])
-		ob.Count = c
-		ob.recorded = ucon.VerifC03Recorded(im.v, new(big.Int).SetUint64(o.M.R), o.M.I, vtypes[o.M.T], kinds[o.M.Kind], addrs[o.M.Sender])
+	im.counts(o, &ob)
+	if ob.second != nil {
+		ob.second.Latch = ob.Latch
+		im.counts(o.During, ob.second)
 	}
 	return ob
 }
@@ -779,6 +848,7 @@ type oracle struct {
 	// what a verifier with the same look-back set accepts as credential: (sender, index, type) -> seats
 	stale bool // some counted vote carried an invalid VRF credential (finding class, real mode)
 	realVerified int
+	certAt       map[[2]uint64]bool // certificate flag of every context entered
 	sent         map[tkey]int // votes posted per (round, index, kind) over the whole history, restarts included
 	// every CommitEvent / UpdateExistedHeaderEvent seen so far, kept by reference
 	// together with the value of its vote sets at announcement time
@@ -891,15 +961,52 @@ func (o *oracle) recheckRetained(when string) {
 	}
 }
 
+// a quorum-crossing trigger: an accepted chamber vote of this op, or a context change
+// (the voter's own votes are cast there), with the threshold it brings
+type trig struct {
+	r   uint64
+	i   uint32
+	t   int // vote type; -1 = context change
+	thr uint64
+}
+
+func (o *oracle) certAtCtx(r uint64, i uint32) bool {
+	if c, ok := o.certAt[[2]uint64{r, uint64(i)}]; ok {
+		return c
+	}
+	return o.cert
+}
+
+// step: one event at a time.  stepPair: [inner] was requested while the
+// authentication callbacks of the message [outer] ran; the voter lock makes it take
+// effect after [outer] has completed, so the bookkeeping is the sequential one; the
+// events of both are in ob (they cannot be told apart from outside).
 func (o *oracle) step(op *Op, ob *Obs) {
+	o.begin(ob)
+	var trigs []trig
+	o.book(op, ob, false, &trigs)
+	o.events(trigs, ob)
+}
+
+func (o *oracle) stepPair(outer, inner *Op, ob, ob2 *Obs) {
+	o.begin(ob)
+	var trigs []trig
+	o.book(outer, ob, true, &trigs)
+	o.book(inner, ob2, false, &trigs)
+	o.events(trigs, ob)
+}
+
+func (o *oracle) begin(ob *Obs) {
 	o.recheckRetained("after a later op")
 	for _, e := range ob.Events {
 		if e.commit != nil || e.update != nil {
 			o.retained = append(o.retained, e)
 		}
 	}
-	var trigThr uint64
-	trigOK := false
+}
+
+// book: what the op does to the sets of counted votes, as the property prescribes it
+func (o *oracle) book(op *Op, ob *Obs, skipCount bool, trigs *[]trig) {
 	switch op.K {
 	case "srv":
 		o.srvR, o.srvI = op.R, op.I
@@ -922,6 +1029,11 @@ func (o *oracle) step(op *Op, ob *Obs) {
 			}
 		}
 		o.ctxSet, o.r, o.i, o.cert = true, op.R, op.I, op.Cert
+		if o.certAt == nil {
+			o.certAt = map[[2]uint64]bool{}
+		}
+		o.certAt[[2]uint64{op.R, uint64(op.I)}] = op.Cert
+		*trigs = append(*trigs, trig{op.R, op.I, -1, 0})
 	case "msg":
 		m := op.M
 		accepted := !m.NoVote && m.Sig == 0 && m.StakeOk && o.credSeen(m) && !(m.T == 3 && !o.h.Env.CertpOk)
@@ -941,7 +1053,7 @@ func (o *oracle) step(op *Op, ob *Obs) {
 				accepted = false
 			}
 		}
-		if !accepted && m.StakeOk && m.Kind != 2 && ob.recorded {
+		if !accepted && m.StakeOk && m.Kind != 2 && ob.recorded && !skipCount {
 			// the oracle rejects the vote, the implementation has the sender recorded:
 			// fine if it was recorded by an earlier, accepted vote - otherwise a vote
 			// was counted that must not be
@@ -970,14 +1082,22 @@ func (o *oracle) step(op *Op, ob *Obs) {
 				o.note(tkey{m.R, m.I, m.T}, m.H, m.Thr)
 			}
 			// the count the implementation holds must be exactly the weight of
-			// the non-equivocating counted senders
+			// the non-equivocating counted senders (in a During pair the first count is
+			// read after the second event and may have moved)
 			w := t.weight(m.H)
-			if w < 1<<32 && uint64(ob.Count) != w {
+			if !skipCount && w < 1<<32 && uint64(ob.Count) != w {
 				o.hit(fmt.Sprintf("count_not_sum: count held for %s block %d at (%d,%d) is %d, counted non-equivocating seats sum to %d", vtName[m.T], m.H, m.R, m.I, ob.Count, w))
 			}
 		}
-		trigThr, trigOK = m.Thr, accepted && m.Kind == 0
+		if accepted && m.Kind == 0 {
+			*trigs = append(*trigs, trig{m.R, m.I, m.T, m.Thr})
+		}
 	}
+}
+
+// events: every vote and commit the voter posts must be backed by what was counted
+// in ITS OWN (round, index)
+func (o *oracle) events(trigs []trig, ob *Obs) {
 	// an honest validator never signs two conflicting votes, even across restarts
 	for _, e := range ob.Events {
 		if e.K == "send" {
@@ -1015,18 +1135,37 @@ func (o *oracle) step(op *Op, ob *Obs) {
 		switch e.K {
 		case "send":
 			if e.T == 1 { // a precommit goes out
-				thr := trigThr
-				ok := trigOK && op.M != nil && op.M.T == 0
-				if op.K == "ctx" {
-					if ov := ownLookup(o.h, e.R, e.I, 0); ov != nil {
-						thr, ok = ov.Thr, true
+				// thresholds that may have been crossed for prevotes of exactly this (round, index):
+				// an accepted chamber prevote delivered there, or the voter's own prevote cast there
+				var thrs []uint64
+				for _, tg := range trigs {
+					if tg.r != e.R || tg.i != e.I {
+						continue
+					}
+					if tg.t == 0 {
+						thrs = append(thrs, tg.thr)
+					} else if tg.t == -1 {
+						if ov := ownLookup(o.h, e.R, e.I, 0); ov != nil {
+							thrs = append(thrs, ov.Thr)
+						}
 					}
 				}
 				w := o.tal(tkey{e.R, e.I, 0}).weight(e.H)
 				wv := o.tal(tkey{e.R, e.I, 0}).validWeight(e.H)
-				if !ok || w < uint64(goQuorum(thr, true)) {
-					o.hit(fmt.Sprintf("precommit_without_quorum: precommit for block %d at (%d,%d) with counted prevote seats %d < quorum %d of threshold %d", e.H, e.R, e.I, w, goQuorum(thr, true), thr))
-				} else if wv < uint64(goQuorum(thr, true)) {
+				ok, okValid := false, false
+				var thr uint64
+				for _, x := range thrs {
+					thr = x
+					if w >= uint64(goQuorum(x, true)) {
+						ok = true
+						if wv >= uint64(goQuorum(x, true)) {
+							okValid = true
+						}
+					}
+				}
+				if !ok {
+					o.hit(fmt.Sprintf("precommit_without_quorum: precommit for block %d at (%d,%d): prevote seats counted for it in that round index are %d, quorum %d of threshold %d (prevote quorum crossings of this event in that index: %d)", e.H, e.R, e.I, w, goQuorum(thr, true), thr, len(thrs)))
+				} else if !okValid {
 					o.hit(fmt.Sprintf("stale_credential_accepted: precommit for block %d at (%d,%d): counted prevote seats %d reach the quorum %d only with votes whose VRF credential is invalid (valid seats %d); Server.verifySortition accepted them because the server was already at (%d,%d)", e.H, e.R, e.I, w, goQuorum(thr, true), wv, o.srvR, o.srvI))
 				}
 			}
@@ -1036,9 +1175,10 @@ func (o *oracle) step(op *Op, ob *Obs) {
 			} else if !o.reachedValid[rkey(e.R, e.I, 1, e.H)] {
 				o.hit(fmt.Sprintf("stale_credential_accepted: commit of block %d at (%d,%d): the precommit quorum was reached only with votes whose VRF credential is invalid", e.H, e.R, e.I))
 			}
-			if o.cert && !o.reached[rkey(e.R, e.I, 3, e.H)] {
+			cert := o.certAtCtx(e.R, e.I)
+			if cert && !o.reached[rkey(e.R, e.I, 3, e.H)] {
 				o.hit(fmt.Sprintf("commit_without_certificate_quorum: commit of block %d at (%d,%d) in a certificate round but certificate votes never reached their quorum", e.H, e.R, e.I))
-			} else if o.cert && !o.reachedValid[rkey(e.R, e.I, 3, e.H)] {
+			} else if cert && !o.reachedValid[rkey(e.R, e.I, 3, e.H)] {
 				o.hit(fmt.Sprintf("stale_credential_accepted: commit of block %d at (%d,%d): the certificate quorum was reached only with votes whose VRF credential is invalid", e.H, e.R, e.I))
 			}
 			o.checkCommitSets(&e)
@@ -1070,7 +1210,8 @@ func (o *oracle) verifyCommit(e *Event) {
 	}
 	ev := *e.commit
 	certRound := ev.Round.Uint64()%params.ACoCHTFrequency == 0 && ev.Round.Uint64() > 0
-	if certRound != o.cert {
+	ctxCert := o.certAtCtx(e.R, e.I)
+	if certRound != ctxCert {
 		return // the context's certificate flag contradicts the round number: PackVotes and the voter disagree by construction
 	}
 	uv, err := o.im.v.PackVotes(ev, params.LookBackPos)
@@ -1101,9 +1242,9 @@ func (o *oracle) verifyCommit(e *Event) {
 		}
 		return false
 	}
-	if hasInvalid(1) || (o.cert && hasInvalid(3)) {
+	if hasInvalid(1) || (ctxCert && hasInvalid(3)) {
 		class = "stale_credential_accepted"
-	} else if o.cert && o.reached[rkey(e.R, e.I, 1, e.H)] && o.reached[rkey(e.R, e.I, 3, e.H)] && (lost(1) || lost(3)) {
+	} else if ctxCert && o.reached[rkey(e.R, e.I, 1, e.H)] && o.reached[rkey(e.R, e.I, 3, e.H)] && (lost(1) || lost(3)) {
 		class = "latched_quorum_decayed"
 	}
 	if got := o.recount(uv.ChamberCommitters, ev, 1); got < uint64(goQuorum(thrP, true)) {
@@ -1246,6 +1387,15 @@ func opCoq(o *Op) string {
 	}
 }
 
+// sopCoq prints a schedule op: one event, or a message with the event requested during
+// its authentication
+func sopCoq(o *Op) string {
+	if o.K == "msg" && o.During != nil {
+		return "During " + strings.TrimPrefix(opCoq(o), "Msg ") + " (" + opCoq(o.During) + ")"
+	}
+	return "P (" + opCoq(o) + ")"
+}
+
 func obsCoq(ob *Obs) string {
 	var evs []string
 	for _, e := range ob.Events {
@@ -1302,6 +1452,7 @@ type runResult struct {
 	hits         []string
 	stale        bool
 	realVerified int
+	overtook     int // During events that completed while the first message was still being authenticated
 }
 
 func runHistory(h *History) runResult {
@@ -1311,7 +1462,14 @@ func runHistory(h *History) runResult {
 	var res runResult
 	for k := range h.Ops {
 		ob := im.apply(&h.Ops[k])
-		or.step(&h.Ops[k], &ob)
+		if ob.second != nil {
+			if im.duringRan {
+				res.overtook++
+			}
+			or.stepPair(&h.Ops[k], h.Ops[k].During, &ob, ob.second)
+		} else {
+			or.step(&h.Ops[k], &ob)
+		}
 		res.obs = append(res.obs, ob)
 	}
 	or.recheckRetained("at the end of the history")
@@ -1351,6 +1509,65 @@ func normalize(h *History) {
 		}
 		h.Env.Own = own
 	}
+	normMsg := func(m *MsgOp) {
+	if m.NoVote && m.Status != 2 {
+		m.NoVote = false // a nil vote with another status is a nil dereference
+	}
+	if m.Sender <= 0 || m.Sender >= nKeys {
+		m.Sender = 1
+	}
+	if m.H < 0 || m.H >= nHashes {
+		m.H = 1
+	}
+	if h.Env.Real {
+		// the stake look-up and the credential are what the fake chain and the VRF say
+		m.StakeOk = m.Sender < len(h.Env.Stakes)
+		m.Thr = h.Env.ValThr
+		m.Kind = 0
+		if m.Proof == 0 {
+			switch {
+			case m.Cred == 1 || m.Cred == 3 || m.Votes%2 == 1:
+				m.Proof = 1
+			default:
+				m.Proof = 2
+			}
+		}
+		if m.StakeOk && credWeight(h, m.Sender, m.R, m.I, m.T) == 0 {
+			if _, sub := realSortition(h, m.Sender, m.I, m.T); sub > 0 {
+				h.Env.Creds = append(h.Env.Creds, CredEntry{m.Sender, m.R, m.I, m.T, sub})
+			}
+		}
+	} else {
+		w := credWeight(h, m.Sender, m.R, m.I, m.T)
+		if m.Proof == 0 {
+			intentValid := m.Cred == 1 || m.Cred == 3
+			switch {
+			case intentValid:
+				m.Proof = 1
+				if w == 0 && m.Votes > 0 { // the first valid claim defines the sender's weight
+					h.Env.Creds = append(h.Env.Creds, CredEntry{m.Sender, m.R, m.I, m.T, m.Votes})
+				}
+			case w != 0 && w != m.Votes:
+				m.Proof = 1 // the right proof with a wrong seat claim
+			default:
+				m.Proof = 2
+			}
+		}
+	}
+	// what the sortition verifier says about (credential, claim)
+	w := credWeight(h, m.Sender, m.R, m.I, m.T)
+	valid := m.Proof == 1 && w > 0 && w == m.Votes && (!h.Env.Real || m.StakeOk)
+	switch {
+	case h.Env.Real && valid:
+		m.Cred = 3
+	case h.Env.Real:
+		m.Cred = 2
+	case valid:
+		m.Cred = 1
+	default:
+		m.Cred = 0
+	}
+	}
 	seenCtx := false
 	var out []Op
 	for _, o := range h.Ops {
@@ -1364,63 +1581,20 @@ func normalize(h *History) {
 			if !seenCtx || o.M == nil {
 				continue // processVoteMsg before the first context dereferences a nil round
 			}
-			if o.M.NoVote && o.M.Status != 2 {
-				o.M.NoVote = false // a nil vote with another status is a nil dereference
-			}
-			if o.M.Sender <= 0 || o.M.Sender >= nKeys {
-				o.M.Sender = 1
-			}
-			if o.M.H < 0 || o.M.H >= nHashes {
-				o.M.H = 1
-			}
-			m := o.M
-			if h.Env.Real {
-				// the stake look-up and the credential are what the fake chain and the VRF say
-				m.StakeOk = m.Sender < len(h.Env.Stakes)
-				m.Thr = h.Env.ValThr
-				m.Kind = 0
-				if m.Proof == 0 {
-					switch {
-					case m.Cred == 1 || m.Cred == 3 || m.Votes%2 == 1:
-						m.Proof = 1
-					default:
-						m.Proof = 2
+			normMsg(o.M)
+			if d := o.During; d != nil {
+				switch {
+				case d.K == "ctx":
+					if d.R == 0 {
+						d.R = 1
 					}
+					d.During = nil
+				case d.K == "msg" && d.M != nil:
+					normMsg(d.M)
+					d.During = nil
+				default:
+					o.During = nil
 				}
-				if m.StakeOk && credWeight(h, m.Sender, m.R, m.I, m.T) == 0 {
-					if _, sub := realSortition(h, m.Sender, m.I, m.T); sub > 0 {
-						h.Env.Creds = append(h.Env.Creds, CredEntry{m.Sender, m.R, m.I, m.T, sub})
-					}
-				}
-			} else {
-				w := credWeight(h, m.Sender, m.R, m.I, m.T)
-				if m.Proof == 0 {
-					intentValid := m.Cred == 1 || m.Cred == 3
-					switch {
-					case intentValid:
-						m.Proof = 1
-						if w == 0 && m.Votes > 0 { // the first valid claim defines the sender's weight
-							h.Env.Creds = append(h.Env.Creds, CredEntry{m.Sender, m.R, m.I, m.T, m.Votes})
-						}
-					case w != 0 && w != m.Votes:
-						m.Proof = 1 // the right proof with a wrong seat claim
-					default:
-						m.Proof = 2
-					}
-				}
-			}
-			// what the sortition verifier says about (credential, claim)
-			w := credWeight(h, m.Sender, m.R, m.I, m.T)
-			valid := m.Proof == 1 && w > 0 && w == m.Votes && (!h.Env.Real || m.StakeOk)
-			switch {
-			case h.Env.Real && valid:
-				m.Cred = 3
-			case h.Env.Real:
-				m.Cred = 2
-			case valid:
-				m.Cred = 1
-			default:
-				m.Cred = 0
 			}
 		case "cache":
 			if o.H < 1 || o.H > nBlocks {
@@ -1644,7 +1818,30 @@ func (g *genState) msg(status, t int, r uint64, i uint32, sender, h int) {
 		resend(g.r, &g.h.Ops, *m, 1+(h%nBlocks))
 		return
 	}
-	g.h.Ops = append(g.h.Ops, Op{K: "msg", M: m})
+	op := Op{K: "msg", M: m}
+	if g.r.Chance(4) {
+		// a second event requested while this vote is being authenticated
+		if g.r.Chance(50) {
+			d := Op{K: "ctx", R: g.round, I: g.idx + 1, Step: []uint32{0, 2, 4}[g.r.Intn(3)], Cert: g.certRound()}
+			if g.r.Chance(25) {
+				d.I = g.idx // only the step changes
+			} else {
+				g.prev = append(g.prev, [2]uint64{g.round, uint64(g.idx)})
+				g.idx++
+			}
+			g.step = d.Step
+			op.During = &d
+		} else {
+			m2 := *m
+			m2.Sender = 1 + g.r.Intn(g.nS)
+			m2.Votes = g.seats[t][m2.Sender]
+			if g.r.Chance(30) {
+				m2.H = 1 + (h % nBlocks)
+			}
+			op.During = &Op{K: "msg", M: &m2}
+		}
+	}
+	g.h.Ops = append(g.h.Ops, op)
 }
 
 func (g *genState) pickHash() int {
@@ -1923,6 +2120,10 @@ func genFlow(r *vf.Rng) History {
 	if r.Chance(25) {
 		restartAt = r.Intn(len(phases))
 	}
+	duringAt := -1
+	if r.Chance(35) {
+		duringAt = r.Intn(len(phases))
+	}
 	for pi, t := range phases {
 		if pi == restartAt {
 			// restart in the middle of the round index and re-enter it: every vote
@@ -1955,10 +2156,36 @@ func genFlow(r *vf.Rng) History {
 		}
 		ord := order()
 		for k, s := range ord {
-			if r.Chance(8) {
+			if r.Chance(8) && !(pi == duringAt && k == len(ord)-1) {
 				continue
 			}
 			plain(t, s, g.lead)
+			if pi == duringAt && k == len(ord)-1 {
+				// the vote that (usually) crosses the quorum is still being authenticated
+				// when the round-index timeout fires: the context change is requested on
+				// another goroutine.  The vote must be judged in the index it belongs to.
+				last := &h.Ops[len(h.Ops)-1]
+				if last.K == "msg" && last.M.Status == 2 && last.M.R == g.round && last.M.I == g.idx {
+					nr, ni := g.round, g.idx+1
+					if r.Chance(20) {
+						nr, ni = g.round+1, 1
+					}
+					for tt := 0; tt < 4; tt++ {
+						if ov := ownLookup(&h, g.round, g.idx, tt); ov != nil {
+							h.Env.Own = append(h.Env.Own, OwnView{R: nr, I: ni, T: tt, Seats: ov.Seats, Thr: ov.Thr, Kind: 0})
+						}
+					}
+					g.prev = append(g.prev, [2]uint64{g.round, uint64(g.idx)})
+					g.round, g.idx = nr, ni
+					d := Op{K: "ctx", R: nr, I: ni, Step: []uint32{0, 2, 4}[r.Intn(3)], Cert: g.certRound()}
+					if d.Step == 2 {
+						d.MaxP = &[2]int{1, g.lead}
+					}
+					g.step = d.Step
+					last.During = &d
+				}
+				continue
+			}
 			if r.Chance(10) {
 				plain(t, s, g.lead) // duplicate
 			}
@@ -2131,6 +2358,10 @@ func genReal(r *vf.Rng) History {
 	if r.Chance(30) {
 		equivAt = r.Intn(len(phases))
 	}
+	duringAt, duringK := -1, r.Intn(n)
+	if r.Chance(30) {
+		duringAt = r.Intn(len(phases))
+	}
 	for pi, t := range phases {
 		if t == 1 {
 			add(Op{K: "ctx", R: round, I: idx, Step: 4, Cert: cert})
@@ -2170,6 +2401,23 @@ func genReal(r *vf.Rng) History {
 				continue
 			}
 			vote(t, sd, lead, true)
+			if pi == duringAt && k == duringK {
+				// the index timeout fires while this vote is being authenticated
+				last := &h.Ops[len(h.Ops)-1]
+				if last.K == "msg" && last.M.Status == 2 && last.M.I == idx {
+					for tt := 0; tt < 4; tt++ {
+						h.Env.Own = append(h.Env.Own, OwnView{R: round, I: idx + 1, T: tt})
+					}
+					idx++
+					d := Op{K: "ctx", R: round, I: idx, Step: []uint32{0, 2, 4}[r.Intn(3)], Cert: cert}
+					if d.Step == 2 {
+						d.MaxP = &[2]int{1, lead}
+					}
+					last.During = &d
+					add(Op{K: "srv", R: round, I: idx})
+					continue
+				}
+			}
 			if r.Chance(8) {
 				vote(t, sd, lead, true)
 			}
@@ -2252,6 +2500,7 @@ func gen(seed uint64, n int, outDir, corpusDir string) {
 		for _, w := range rr.hits {
 			res.OracleHits = append(res.OracleHits, hit{whatKey(w), w, *h})
 		}
+		res.Distribution["during_overtook_the_message"] += rr.overtook
 		if h.Env.Real {
 			res.Count("case_real")
 			res.Distribution["real_verifyVotes_calls"] += rr.realVerified
@@ -2262,8 +2511,12 @@ func gen(seed uint64, n int, outDir, corpusDir string) {
 		nontrivial := false
 		for j := range h.Ops {
 			o := &h.Ops[j]
-			ops = append(ops, opCoq(o))
+			ops = append(ops, sopCoq(o))
 			obs = append(obs, obsCoq(&rr.obs[j]))
+			if rr.obs[j].second != nil {
+				obs = append(obs, obsCoq(rr.obs[j].second))
+				res.Count("during_" + o.During.K)
+			}
 			res.Count("op_" + o.K)
 			if o.K == "msg" {
 				res.Count("msg_status_" + statusCoq[o.M.Status])
@@ -2367,7 +2620,10 @@ func replay(file string) {
 	}
 	rr := runHistory(&h)
 	for j := range h.Ops {
-		fmt.Printf("%3d %-60s -> %s\n", j, opCoq(&h.Ops[j]), obsCoq(&rr.obs[j]))
+		fmt.Printf("%3d %-60s -> %s\n", j, sopCoq(&h.Ops[j]), obsCoq(&rr.obs[j]))
+		if rr.obs[j].second != nil {
+			fmt.Printf("    %-60s -> %s\n", "(second event of the pair)", obsCoq(rr.obs[j].second))
+		}
 	}
 	if len(rr.hits) > 0 {
 		for _, w := range rr.hits {
@@ -2390,6 +2646,10 @@ func main() {
 	corpus := flag.String("corpus", "/verif/corpus/C03", "")
 	file := flag.String("file", "", "")
 	flag.Parse()
+	if mode == "locks" {
+		locksCmd(*out)
+		return
+	}
 	params.InitNetworkId(params.NetworkIdForTestCase)
 	logging.Root().SetHandler(logging.DiscardHandler())
 	setupUniverse()
@@ -2400,6 +2660,8 @@ func main() {
 		gen(*seed, *n, *out, *corpus)
 	case "replay":
 		replay(*file)
+	case "locks":
+		locksCmd(*out)
 	default:
 		fmt.Println("usage: c03 gen|replay")
 		os.Exit(2)
